@@ -2,11 +2,15 @@ package rules
 
 import (
 	"fmt"
+	"go/token"
+	"go/types"
+	"sort"
 	"strings"
 
 	"golang.org/x/tools/go/ssa"
 
 	"verif/wscheck/internal/fold"
+	"verif/wscheck/internal/load"
 )
 
 func init() {
@@ -63,6 +67,29 @@ func c02Cipher(c *Ctx) {
 			jobs = append(jobs, job{n, off})
 		}
 	}
+	// length regimes: the argument "the loops are uniform beyond the lengths folded" holds only if
+	// no branch distinguishes longer payloads. Every constant the code compares the payload length
+	// with starts a regime; one that lies beyond maxLen (a fast path for big payloads) is folded
+	// around its threshold as well, or left undecided when it is out of reach.
+	var regimeProblems []string
+	thresholds := lengthThresholds(f)
+	for _, t := range thresholds {
+		if t <= int64(maxLen)-16 {
+			continue
+		}
+		if t > 1<<14 {
+			regimeProblems = append(regimeProblems, fmt.Sprintf("undecided: Cipher (or a function it calls) treats payloads of %d bytes and more differently; lengths that large are not folded", t))
+			continue
+		}
+		for n := int(t) - 2; n <= int(t)+70; n++ {
+			if n < 0 {
+				continue
+			}
+			for off := 0; off <= 9; off++ {
+				jobs = append(jobs, job{n, off})
+			}
+		}
+	}
 	results := make([][]string, len(jobs))
 	parallel(len(jobs), func(j int) {
 		n, off := jobs[j].n, jobs[j].off
@@ -104,12 +131,12 @@ func c02Cipher(c *Ctx) {
 		}
 		results[j] = problems
 	})
-	var problems []string
+	problems := append([]string{}, regimeProblems...)
 	for _, r := range results {
 		problems = append(problems, r...)
 	}
 	c.R.AddCells(len(jobs))
-	c.R.Sample(map[string]any{"rule": rule, "lengths": fmt.Sprintf("0..%d", maxLen), "offsets": fmt.Sprintf("0..%d", maxOff), "example": "n=21 offset=6: byte 17 -> (p17^k3)"})
+	c.R.Sample(map[string]any{"rule": rule, "length_thresholds_in_code": fmt.Sprint(thresholds), "lengths": fmt.Sprintf("0..%d", maxLen), "offsets": fmt.Sprintf("0..%d", maxOff), "example": "n=21 offset=6: byte 17 -> (p17^k3)"})
 	c.verdict(rule, rule+"/Cipher", c.P.FuncPos(f), uniq(problems), fmt.Sprintf("%d (length, offset) pairs: every byte is p_i XOR k_((offset+i) mod 4)", len(jobs)))
 }
 
@@ -574,4 +601,82 @@ func c02CallSites(c *Ctx) {
 			}
 		}
 	}
+}
+
+// lengthThresholds returns the constants that f and the module functions it
+// calls compare the length of their first (slice) parameter with.
+func lengthThresholds(f *ssa.Function) []int64 {
+	seen := map[*ssa.Function]bool{}
+	set := map[int64]bool{}
+	var visit func(fn *ssa.Function, depth int)
+	visit = func(fn *ssa.Function, depth int) {
+		if fn == nil || seen[fn] || fn.Blocks == nil || depth > 4 || len(fn.Params) == 0 {
+			return
+		}
+		seen[fn] = true
+		p0 := fn.Params[0]
+		if _, isSlice := p0.Type().Underlying().(*types.Slice); !isSlice {
+			return
+		}
+		var fromLen func(v ssa.Value, d int) bool
+		fromLen = func(v ssa.Value, d int) bool {
+			if v == nil || d > 6 {
+				return false
+			}
+			switch x := v.(type) {
+			case *ssa.Call:
+				if b, ok := x.Call.Value.(*ssa.Builtin); ok && b.Name() == "len" && len(x.Call.Args) == 1 {
+					a := x.Call.Args[0]
+					for {
+						if sl, ok := a.(*ssa.Slice); ok {
+							a = sl.X
+							continue
+						}
+						break
+					}
+					return a == ssa.Value(p0)
+				}
+			case *ssa.BinOp:
+				_, cx := x.X.(*ssa.Const)
+				_, cy := x.Y.(*ssa.Const)
+				return cy && fromLen(x.X, d+1) || cx && fromLen(x.Y, d+1)
+			case *ssa.Convert:
+				return fromLen(x.X, d+1)
+			case *ssa.Phi:
+				for _, e := range x.Edges {
+					if fromLen(e, d+1) {
+						return true
+					}
+				}
+			}
+			return false
+		}
+		for _, b := range fn.Blocks {
+			for _, in := range b.Instrs {
+				switch x := in.(type) {
+				case *ssa.BinOp:
+					switch x.Op {
+					case token.LSS, token.LEQ, token.GTR, token.GEQ, token.EQL, token.NEQ:
+						if k, ok := x.Y.(*ssa.Const); ok && k.Value != nil && fromLen(x.X, 0) {
+							set[k.Int64()] = true
+						}
+						if k, ok := x.X.(*ssa.Const); ok && k.Value != nil && fromLen(x.Y, 0) {
+							set[k.Int64()] = true
+						}
+					}
+				case ssa.CallInstruction:
+					if cal := x.Common().StaticCallee(); cal != nil && load.InModule(cal) {
+						visit(cal, depth+1)
+					}
+				}
+			}
+		}
+	}
+	visit(f, 0)
+	var out []int64
+	for k := range set {
+		out = append(out, k)
+	}
+	sort.Slice(out, func(i, j int) bool { return out[i] < out[j] })
+	return out
 }
